@@ -4,6 +4,7 @@ import ZkElGamal.Props.C06
 import ZkElGamal.Props.C02
 import ZkElGamal.Props.C03
 import Mathlib.Tactic.IntervalCases
+import ZkElGamal.Model.Range
 /-!
 # C07 — an accepted proof is bound to its exact statement, instruction and encoding
 
@@ -25,6 +26,8 @@ Percentage-with-cap: `Cap.parse_injective` (incl. the 8 little-endian bytes of `
 `Cap.challenge_indep`, `Cap.response_binding` (changing any single one of the five responses breaks an
 equation; two response vectors can both be valid for an OR-proof, so this is the strongest true form).
 Grouped validity: `Validity.decode_injective2`, `Validity.challenge_indep`, `Validity.response_binding`.
+Range proofs: `Range.parse_injective` (two byte strings that decode to the same range proof are equal, for
+every number of inner-product rounds).
 The other validity layouts and the range instructions are covered by the correspondence part (all bit
 flips of accepted instances, transplants between same-length proof types, substituted statements), and
 for every accepted or rejected byte string the Fiat–Shamir challenge *values* are compared (DESIGN §10.7).
@@ -426,3 +429,108 @@ theorem response_binding (C Y0 : G) (zr zx zr' zx' c : F) (hG : Gp ≠ 0) (hH : 
 end Validity
 end more
 end Zk.Props.C07
+
+/-! ## range proofs: the encoding is not malleable -/
+namespace Zk.Props.C07.Range
+open Zk Zk.Range
+
+variable {F G T : Type} [Field F] [AddCommGroup G] [Module F G] [DecidableEq G]
+  [PtCodec G] [ScCodec F] [PedGens G] [TranscriptOps T] [LawfulPtCodec G] [LawfulScCodec F]
+
+theorem canon_inj {x x' : Bytes} {s : F} (h : ScCodec.canon x = some s) (h' : ScCodec.canon x' = some s) : x = x' := by
+  rw [← LawfulScCodec.enc_canon _ _ h, ← LawfulScCodec.enc_canon _ _ h']
+
+/-- what `parseIpp` returns, field by field -/
+theorem parseIpp_spec (b : Bytes) (ipp : Ipp F G) (h : parseIpp b = some ipp) :
+    b.length = 32 * (2 * ipp.lB.length + 2) ∧
+    ipp.lB = (List.range ipp.lB.length).map (fun i => slice b (2 * i * 32) 32) ∧
+    ipp.rB = (List.range ipp.lB.length).map (fun i => slice b (2 * i * 32 + 32) 32) ∧
+    ScCodec.canon (slice b (2 * ipp.lB.length * 32) 32) = some ipp.a ∧
+    ScCodec.canon (slice b (2 * ipp.lB.length * 32 + 32) 32) = some ipp.b := by
+  unfold parseIpp at h
+  simp only at h
+  split at h
+  · cases h
+  rename_i h32
+  split at h
+  · cases h
+  rename_i hnum
+  split at h
+  · cases h
+  rename_i heven
+  split at h
+  · cases h
+  simp only [Option.bind_eq_bind, Option.bind_eq_some_iff, Option.pure_def, Option.some.injEq] at h
+  obtain ⟨a, ha, bb, hb, Ls, _, Rs, _, rfl⟩ := h
+  simp only [List.length_map, List.length_range]
+  refine ⟨by omega, trivial, trivial, ha, hb⟩
+
+
+theorem parseIpp_injective (b b' : Bytes) (ipp : Ipp F G) (h : parseIpp b = some ipp) (h' : parseIpp b' = some ipp) :
+    b = b' := by
+  obtain ⟨l1, e1, e2, e3, e4⟩ := parseIpp_spec b ipp h
+  obtain ⟨l1', e1', e2', e3', e4'⟩ := parseIpp_spec b' ipp h'
+  apply eq_of_slices (2 * ipp.lB.length + 2) b b' l1 l1'
+  intro i hi
+  have hL : ∀ j < ipp.lB.length, slice b (2 * j * 32) 32 = slice b' (2 * j * 32) 32 := by
+    have := e1.symm.trans e1'
+    intro j hj
+    exact List.map_inj_left.mp this j (List.mem_range.mpr hj)
+  have hR : ∀ j < ipp.lB.length, slice b (2 * j * 32 + 32) 32 = slice b' (2 * j * 32 + 32) 32 := by
+    have := e2.symm.trans e2'
+    intro j hj
+    exact List.map_inj_left.mp this j (List.mem_range.mpr hj)
+  by_cases c1 : i < 2 * ipp.lB.length
+  · rcases Nat.even_or_odd' i with ⟨j, rfl | rfl⟩
+    · have := hL j (by omega)
+      rw [show 32 * (2 * j) = 2 * j * 32 by ring]; exact this
+    · have := hR j (by omega)
+      rw [show 32 * (2 * j + 1) = 2 * j * 32 + 32 by ring]; exact this
+  · by_cases c2 : i = 2 * ipp.lB.length
+    · subst c2
+      rw [show 32 * (2 * ipp.lB.length) = 2 * ipp.lB.length * 32 by ring]
+      exact canon_inj e3 e3'
+    · have : i = 2 * ipp.lB.length + 1 := by omega
+      subst this
+      rw [show 32 * (2 * ipp.lB.length + 1) = 2 * ipp.lB.length * 32 + 32 by ring]
+      exact canon_inj e4 e4'
+
+/-- **the range-proof encoding is not malleable**: two byte strings that decode to the same proof are equal -/
+theorem parse_injective (b b' : Bytes) (pf : Proof F G) (h : parseProof b = some pf) (h' : parseProof b' = some pf) :
+    b = b' := by
+  have key : ∀ (x : Bytes), parseProof x = some pf →
+      224 ≤ x.length ∧ slice x 0 32 = pf.aB ∧ slice x 32 32 = pf.sB ∧ slice x 64 32 = pf.t1B ∧ slice x 96 32 = pf.t2B ∧
+      ScCodec.canon (slice x 128 32) = some pf.tx ∧ ScCodec.canon (slice x 160 32) = some pf.txBlinding ∧
+      ScCodec.canon (slice x 192 32) = some pf.eBlinding ∧ parseIpp (x.drop 224) = some pf.ipp := by
+    intro x hx
+    unfold parseProof at hx
+    split at hx
+    · cases hx
+    split at hx
+    · cases hx
+    rename_i hlen
+    simp only [Option.bind_eq_bind, Option.bind_eq_some_iff, Option.pure_def, Option.some.injEq] at hx
+    obtain ⟨_, _, _, _, _, _, _, _, tx, htx, txb, htxb, eb, heb, ipp, hipp, rfl⟩ := hx
+    exact ⟨by omega, rfl, rfl, rfl, rfl, htx, htxb, heb, hipp⟩
+  obtain ⟨g0, a0, a1, a2, a3, a4, a5, a6, a7⟩ := key b h
+  obtain ⟨g0', c0, c1, c2, c3, c4, c5, c6, c7⟩ := key b' h'
+  have hd : b.drop 224 = b'.drop 224 := parseIpp_injective _ _ _ a7 c7
+  have ht : b.take 224 = b'.take 224 := by
+    apply eq_of_slices 7 _ _ (by simp; omega) (by simp; omega)
+    intro i hi
+    have sl : ∀ (x : Bytes) (k : ℕ), k + 32 ≤ 224 → slice (x.take 224) k 32 = slice x k 32 := by
+      intro x k hk
+      simp only [slice, List.drop_take, List.take_take]
+      congr 1; omega
+    rw [sl b _ (by omega), sl b' _ (by omega)]
+    interval_cases i
+    · exact a0.trans c0.symm
+    · exact a1.trans c1.symm
+    · exact a2.trans c2.symm
+    · exact a3.trans c3.symm
+    · exact canon_inj a4 c4
+    · exact canon_inj a5 c5
+    · exact canon_inj a6 c6
+  rw [← List.take_append_drop 224 b, ← List.take_append_drop 224 b', ht, hd]
+
+end Zk.Props.C07.Range
